@@ -2,5 +2,28 @@
 
 package geyser
 
+import (
+	"context"
+	"net/http"
+
+	"github.com/go-logr/logr"
+
+	"go.minekube.com/gate/pkg/edition/bedrock/config"
+	"go.minekube.com/gate/pkg/edition/java/proxy"
+)
+
 // VerifJavaCompatibleUsername exposes javaCompatibleUsername to the verification harness (C40).
 func VerifJavaCompatibleUsername(name string) string { return javaCompatibleUsername(name) }
+
+// VerifWithBedrockContext exposes withBedrockContext (C40): the context a Geyser connection carries.
+func VerifWithBedrockContext(ctx context.Context, c *GeyserConnection) context.Context {
+	return withBedrockContext(ctx, c)
+}
+
+// VerifOnGameProfile runs the real onGameProfile handler (C40) of an Integration that has exactly the
+// fields the handler reads: a discarding logger, the given Bedrock config, and a profile manager using
+// the given HTTP client (the harness passes one without network).
+func VerifOnGameProfile(cfg *config.Config, client *http.Client, e *proxy.GameProfileRequestEvent) {
+	i := &Integration{log: logr.Discard(), config: cfg, profileManager: &ProfileManager{client: client}}
+	i.onGameProfile(e)
+}
